@@ -497,7 +497,7 @@ func runC21(s *kit.Session, f kit.Failer, c c21Case) {
 	}
 
 	if ok, sig, msg := kit.Guard(func() { _ = engine.Run() }); !ok {
-		s.Fail(f, c, sig, "%s", msg)
+		s.Fail(f, c, normSig(sig), "%s", msg)
 		return
 	}
 
